@@ -459,11 +459,14 @@ def monStep (cfg : Cfg) (m : Mon) (op : Op) (o : Obs) : StepOut :=
     | none => none
   let v2 := (chkLog cfg req st o.log).map Clause.log
   let v3 := (chkMint cfg tbl0 req st o.hdr).map Clause.mint
-  let (tbl1, pend1) := bookAnswer cfg fl now (tagOf m op) tbl0 m.pend op st
-  let (tbl1, run1) := bookSlots tbl1 pend1 m.run op st
-  let (tbl2, pend2) := bookDone now tbl1 pend1 o.done
+  let ba := bookAnswer cfg fl now (tagOf m op) tbl0 m.pend op st
+  let bs := bookSlots ba.1 ba.2 m.run op st
+  let bd := bookDone now bs.1 ba.2 o.done
+  let tbl2 := bd.1
   let names := o.map.map (·.name)
-  let (tbl3, v5a) := scanMap cfg now req st o.hdr tbl2 o.map
+  let sm := scanMap cfg now req st o.hdr tbl2 o.map
+  let tbl3 := sm.1
+  let v5a := sm.2
   let v5b := (chkKeys o.map).map Clause.key
   let v5c := (chkGone names tbl3).map Clause.gone
   let tbl4 := reapDying names tbl3
@@ -483,9 +486,9 @@ def monStep (cfg : Cfg) (m : Mon) (op : Op) (o : Obs) : StepOut :=
   let faults := match op with
     | .fault f => if st == .ok then f else m.faults
     | _ => m.faults
-  let (nslow, nasync) := countersAfter m op st
-  { mon := { tbl := tbl5, now := now, pend := pend2, zombies := zombies, run := run1, faults := faults,
-             nslow := nslow, nasync := nasync },
+  let cnt := countersAfter m op st
+  { mon := { tbl := tbl5, now := now, pend := bd.2, zombies := zombies, run := bs.2, faults := faults,
+             nslow := cnt.1, nasync := cnt.2 },
     viol := viol }
 
 /-- The end-of-case record: after the harness released every handler, cancelled every request and closed
